@@ -66,6 +66,8 @@ class Rec:
         """case: JSON-able dict that replays the case; kind: short mechanism-free clause name."""
         if isinstance(case, dict) and "hashseed" not in case:
             case = dict(case, _hashseed=os.environ.get("PYTHONHASHSEED", "0"))
+        if isinstance(case, dict) and os.environ.get("VERIF_DATACONF_VARIANT") == "1":
+            case = dict(case, _dataconf_variant=True)
         v = {"property": self.prop, "kind": kind, "case": case, "detail": str(detail)[:1500]}
         k = findings.classify(v, self._known_entries)
         if k is not None:
